@@ -15,6 +15,11 @@ Reverse(s) == [i \in 1..Len(s) |-> s[Len(s) + 1 - i]]
 RECURSIVE TwoAdicity(_)
 TwoAdicity(n) == IF Bit(n, 0) = 1 THEN 0 ELSE 1 + TwoAdicity(ShiftR(n, 1))
 
+(* a logged comparison (cmp, partial_cmp and the four operators) against the order relation c *)
+OrdOK(o, c) == /\ o.c = c /\ o.pc = c
+               /\ o.lt = (c = -1) /\ o.le = (c # 1) /\ o.gt = (c = 1) /\ o.ge = (c # -1)
+               /\ o.max_is_a = (c # -1)
+
 JudgeFp(e) ==
   LET p == Modulus(e.f) IN
   CASE e.fn = "add" -> e.out = FpAdd(p, e.a, e.b)
@@ -26,7 +31,7 @@ JudgeFp(e) ==
     [] e.fn = "inv" -> IF e.a = Zero THEN IsNone(e.out)
                        ELSE IsSome(e.out) /\ Lt(e.out[2], p) /\ FpMul(p, e.a, e.out[2]) = One
     [] e.fn = "pow" -> e.out = FpPow(p, e.a, e.e)
-    [] e.fn = "cmp" -> e.out = Cmp(e.a, e.b)
+    [] e.fn = "cmp" -> OrdOK(e.out, Cmp(e.a, e.b))
     [] e.fn = "eq"  -> e.out = (e.a = e.b)
     [] e.fn = "is_zero" -> e.out = (e.a = Zero)
     [] e.fn = "into_repr" -> e.out = e.a
@@ -63,7 +68,7 @@ JudgeRepr(e) ==
     [] e.fn = "is_odd"   -> e.out = (Bit(e.a, 0) = 1)
     [] e.fn = "is_even"  -> e.out = (Bit(e.a, 0) = 0)
     [] e.fn = "is_zero"  -> e.out = (e.a = Zero)
-    [] e.fn = "cmp" -> e.out = Cmp(e.a, e.b)
+    [] e.fn = "cmp" -> OrdOK(e.out, Cmp(e.a, e.b))
     [] e.fn = "eq"  -> e.out = (e.a = e.b)
     [] e.fn = "write_be" -> e.out = ToBytesBE(e.a, nb)
     [] e.fn = "write_le" -> e.out = Reverse(ToBytesBE(e.a, nb))
@@ -109,7 +114,7 @@ JudgeExt(e) ==
     [] e.fn = "frob" -> e.out = XFrob(f, e.a, e.k)
     [] e.fn = "mul_by_nonresidue" -> e.out = (IF f = "Fq2" THEN F2MulXi(e.a) ELSE F6MulV(e.a))
     [] e.fn = "norm" -> e.out = F2Norm(e.a)
-    [] e.fn = "cmp"  -> e.out = F2Cmp(e.a, e.b)
+    [] e.fn = "cmp"  -> OrdOK(e.out, F2Cmp(e.a, e.b))
     [] e.fn = "sqrt" -> IF F2Legendre(e.a) = -1 THEN IsNone(e.out)
                         ELSE IsSome(e.out) /\ XCanon(f, e.out[2]) /\ F2Sqr(e.out[2]) = e.a
     [] e.fn = "legendre" -> e.out = F2Legendre(e.a)
